@@ -35,6 +35,24 @@ CHECKS = {
     note="Trusted: as C08; watchdog for non-returning calls. Directed schedules only delay at existing hook points; a reordering between two adjacent statements with no hook between them is not forced. bam.Writer header durability is covered with C05/C13 when built.",
     technique="TLA+ P-spec/I-spec, TLC exhaustive schedules on WriterI + TLC trace validation with fault injection and hook-directed schedules",
     engine="BgzfWriter"),
+ "C01": dict(
+    category="model_checking", design_ref="DESIGN.md §5 C01",
+    text="Composition of the writer and reader specifications: TLC checks WriterI against WriterP (the emitted blocks partition exactly what was written, Close complete) and ReaderI against the flat-stream rules for all schedules of small instances; real write scripts (length classes around the block size, both textures, wc and level varied) are validated against WriterP, and each cleanly closed stream, described by the harness's own parser, is read back through bgzf.Reader (rd varied; mixed Read sizes and ReadByte, the end crossed by either) with every reply validated against ReaderP.",
+    note="Trusted: TLC; harness parser/compress/flate; read-back byte equality is evaluated by the harness at its own running position, which TLC checks against ReaderP's position. A panic inside a library goroutine kills the driver and is recorded as a crash event (no spec action).",
+    technique="TLA+ WriterP/WriterI + ReaderP/ReaderI, TLC exhaustive small instances + TLC trace validation of write and read-back runs",
+    engine="BgzfWriter"),
+ "C02": dict(
+    category="model_checking", design_ref="DESIGN.md §5 C02, §4.2, App. A.1",
+    text="ReaderP is the flat-stream model (position, Blocked flag, pending error; every spelling of a logical position accepted for LastChunk.End, the in-member spelling required for Begin). ReaderI models block recycling, decompressors, the read head, waiting/working/control channels, read-ahead and inflate goroutines, nextBlock, Seek and Close; TLC checks data identity, no panic, no deadlock and no leak for every schedule without a cache (rd 1-3, 3-4 members, 4-5 operations). Histories over {Read, ReadByte, Seek, Seek(reported Begin), Blocked} on many file shapes run on the real reader and every reply is validated by TLC against ReaderP.",
+    note="Trusted: TLC; the harness's member encoder (files are built without bgzf.Writer). ReaderI is bound to the code via P-level traces and its as-coded switches, not via hook traces (hooks for the reader are not built).",
+    technique="TLA+ P-spec/I-spec, TLC exhaustive schedules on ReaderI + TLC trace validation of real reader histories",
+    engine="BgzfReader"),
+ "C03": dict(
+    category="model_checking", design_ref="DESIGN.md §5 C03, §4.2",
+    text="Transparency is ReaderP having no cache: SetCache is a no-op. ReaderI with a policy-free cache of capacity 1-2 (over-approximating LRU/FIFO/Random) is checked by TLC for every schedule: data identity, no stale cache mapping, no panic, no deadlock, no goroutine left after Close (up to 71M states in the thorough tier). Every history is run on the real reader uncached and then with caches attached/replaced/removed at arbitrary points; the cached run must satisfy ReaderP and be reply-for-reply identical to the uncached run.",
+    note="As C02. Five reader defects were found this way and repaired (KNOWN_FINDINGS.txt); the repaired protocol was model-checked on ReaderI before the commits.",
+    technique="TLA+ P-spec/I-spec with policy-free cache, TLC exhaustive schedules + TLC trace validation of cached vs uncached runs",
+    engine="BgzfReader"),
 }
 NA_REASON = "check not built yet in this round (specification work in progress; see DESIGN.md §10 build order)"
 
@@ -67,6 +85,7 @@ def main():
 
 HOOK_COMMITS = ["4b6c86a", "f712ea4", "5dd3b6c"]
 ENGINES = [
+ dict(name="BgzfReader", path="spec/BgzfReader", serves_properties=["C01", "C02", "C03", "C09", "C10", "C13"], kind_free_text="TLA+ ReaderP/ReaderI + TLC MC + API trace validation"),
  dict(name="BgzfWriter", path="spec/BgzfWriter", serves_properties=["C01", "C08", "C09", "C12"], kind_free_text="TLA+ WriterP/WriterI/WriterPlan + TLC MC + API trace validation"),
  dict(name="BlockCache", path="spec/BlockCache", serves_properties=["C14", "C03"], kind_free_text="TLA+ CacheP/CacheI/CacheLin + TLC MC + trace validation + linearizability search"),
  dict(name="Tf8", path="spec/Tf8", serves_properties=["C20"], kind_free_text="TLA+ bit-layout spec + TLC MC + trace validation + exported-table sweep"),
